@@ -346,6 +346,36 @@ def job(job):
     return stats, [v.to_json() for v in viols[:60]]
 
 
+@common.job
+def leaf_first_chain(n):
+    """an inheritance chain of n assets declared leaf first (and root first): the classes must be built with the
+    interpreter's default recursion limit, inherited defenses included"""
+    import sys
+    viols, stats = [], {'languages': 2}
+    chain = [langs.asset('N0', steps=[langs.step('hardened', 'defense', ttc=langs.fn('Enabled'), reaches=[langs.S('go')]),
+                                      langs.step('go', 'or')])]
+    chain += [langs.asset(f'N{i}', sup=f'N{i - 1}') for i in range(1, n)]
+    for order, assets in (('leaf_first', list(reversed(chain))), ('root_first', chain)):
+        sp = langs.spec(assets, [langs.assoc('Owns', 'N0', 'owner', '0..1', '*', 'owned', 'N0')], lang_id='org.verif.chain')
+        case = {'language': f'chain of {n} assets declared {order}'}
+        old = sys.getrecursionlimit()
+        try:
+            sys.setrecursionlimit(1000)
+            fx = langs.Fixture(sp)
+            leaf = getattr(fx.ns, f'N{n - 1}')(name='leaf')
+            if float(leaf.hardened) != 1.0:
+                viols.append(common.Violation('defense_default_wrong:deep_chain', 'inherited defense default lost', case=case))
+        except RecursionError:
+            viols.append(common.Violation(f'asset_classes_not_built:RecursionError:{order}',
+                                          f'no classes for an inheritance chain of {n} assets declared {order}', case=case))
+        except common.Violation as v:
+            v.case = case
+            viols.append(v)
+        finally:
+            sys.setrecursionlimit(old)
+    return stats, [v.to_json() for v in viols]
+
+
 def dense_rejections(fx, stats):
     """a rejection must also arrive when the assets involved are densely linked (twelve hosts, every pair linked by
     an association of its own): the error message must not expand the object graph"""
@@ -393,6 +423,9 @@ def run(tier, seed):
                 'accepted iff allowed by the language; rejected attempts leave the model unchanged')
     jobs = common.rotate([(n, tier) for n in languages(tier)], seed)
     for stats, viols in common.pmap(job, jobs):
+        res.merge_counts(stats)
+        res.add_violations(viols)
+    for stats, viols in common.pmap(leaf_first_chain, [300]):
         res.merge_counts(stats)
         res.add_violations(viols)
     res.sample({'language': 'multiplicities', 'association': 'M6 (2..3 | ...)', 'attempt': {'l6': ['Pp_0', 'Pp_1', 'Pp_2', 'Pp_3'], 'r6': ['Qq_0']}})
